@@ -95,7 +95,7 @@ def audit(prop, build_ok):
     used = {}
     cur = None
     # output: 'Thm' depends on axioms: [a, b]   |   'Thm' does not depend on any axioms
-    for m in re.finditer(r"'([^']+)' (does not depend on any axioms|depends on axioms: \[([^\]]*)\])", out.replace("\n", " ")):
+    for m in re.finditer(r"'(\S+?)' (does not depend on any axioms|depends on axioms: \[([^\]]*)\])", out.replace("\n", " ")):
         name = m.group(1)
         axs = [a.strip() for a in (m.group(3) or "").split(",") if a.strip()]
         used[name] = axs
